@@ -155,7 +155,8 @@ type World struct {
 	poolRank  map[*ants.Pool]int
 	anchor    chan struct{}
 
-	StartErr error
+	StartErr   error
+	TraceReads bool // record the names of answered reads (diagnostics only)
 }
 
 var (
@@ -525,6 +526,9 @@ var errNoSuch = errors.New("irworld: no such record")
 func (w *World) onClient(c *client.Client, name string, a []any) []any {
 	chain := w.chainOf(c)
 	rd := func() {
+		if !w.TraceReads {
+			return
+		}
 		w.mu.Lock()
 		w.reads = append(w.reads, chain+"."+name)
 		w.mu.Unlock()
@@ -676,7 +680,9 @@ func (w *World) onClient(c *client.Client, name string, a []any) []any {
 func (w *World) onContainer(name string, a []any) []any {
 	w.mu.Lock()
 	defer w.mu.Unlock()
-	w.reads = append(w.reads, "container."+name)
+	if w.TraceReads {
+		w.reads = append(w.reads, "container."+name)
+	}
 	switch name {
 	case "Get":
 		if w.T.ContainerErr != nil {
@@ -711,7 +717,9 @@ func (w *World) onContainer(name string, a []any) []any {
 func (w *World) onNetmap(name string, a []any) []any {
 	w.mu.Lock()
 	defer w.mu.Unlock()
-	w.reads = append(w.reads, "netmap."+name)
+	if w.TraceReads {
+		w.reads = append(w.reads, "netmap."+name)
+	}
 	switch name {
 	case "Epoch":
 		return []any{w.T.Epoch, nil}
